@@ -13,6 +13,7 @@ import (
 	"path/filepath"
 	"sort"
 	"strconv"
+	"unicode"
 
 	"ti/base"
 	"ti/builtin"
@@ -122,6 +123,27 @@ type out struct {
 	TypeNames      [][2]any       `json:"type_names"` // [tag code, TypeToString of a bare T with that tag]
 	MapRangeSites  []mapSite      `json:"map_range_sites"`
 	IsIdentNonChar []int          `json:"ident_nonchars"`
+	Reserved       [][2]any       `json:"reserved"` // [name, token constant name]
+	USpace         [][2]int       `json:"uspace"`   // unicode.IsSpace as inclusive ranges
+	UDigit         [][2]int       `json:"udigit"`
+	UUpper         [][2]int       `json:"uupper"`
+	ULower         [][2]int       `json:"ulower"`
+}
+
+func ranges(pred func(rune) bool) [][2]int {
+	var out [][2]int
+	start := -1
+	for c := 0; c <= 0x110000; c++ {
+		in := c <= 0x10FFFF && pred(rune(c))
+		if in && start < 0 {
+			start = c
+		}
+		if !in && start >= 0 {
+			out = append(out, [2]int{start, c - 1})
+			start = -1
+		}
+	}
+	return out
 }
 
 func main() {
@@ -250,6 +272,33 @@ func main() {
 		"KEYVALUE_ARRAY": base.KEYVALUE_ARRAY, "FLATTEN": base.FLATTEN, "ITEM": base.ITEM,
 		"OWNER": base.OWNER,
 	}
+
+	// ---- lexer.New: reserved[...] = rune(base.X)
+	nw := findFunc(lx, "", "New")
+	if nw == nil {
+		fail("lexer.New not found")
+	}
+	ast.Inspect(nw.Body, func(n ast.Node) bool {
+		as, ok := n.(*ast.AssignStmt)
+		if !ok || len(as.Lhs) != 1 {
+			return true
+		}
+		ix, ok := as.Lhs[0].(*ast.IndexExpr)
+		if !ok || exprString(ix.X) != "reserved" {
+			return true
+		}
+		k, ok1 := litValue(ix.Index)
+		call, ok2 := as.Rhs[0].(*ast.CallExpr)
+		if !ok1 || !ok2 || len(call.Args) != 1 {
+			fail("lexer.New: unreadable reserved entry")
+		}
+		o.Reserved = append(o.Reserved, [2]any{k, exprString(call.Args[0])})
+		return true
+	})
+	o.USpace = ranges(unicode.IsSpace)
+	o.UDigit = ranges(unicode.IsDigit)
+	o.UUpper = ranges(unicode.IsUpper)
+	o.ULower = ranges(unicode.IsLower)
 
 	o.MapRangeSites = mapRangeSites()
 
